@@ -162,6 +162,9 @@ class Ctx:
         }
         # growth checks (G..) are not properties: their evidence lives apart from evidence/<property>.json
         evdir = os.path.join(ROOT, 'evidence' if self.pid.startswith('C') else 'growth')
+        if os.environ.get('VERIF_REPO', '/repo').rstrip('/') != '/repo':
+            # a run against a scratch copy (seeded change): its evidence must not replace the evidence about /repo
+            evdir = os.path.join(ROOT, '.work', 'evidence_scratch')
         os.makedirs(evdir, exist_ok=True)
         with open(os.path.join(evdir, self.pid + '.json'), 'w') as fh:
             json.dump(ev, fh, indent=1, default=jdefault)
